@@ -316,11 +316,64 @@ def r15d(ctx, rep, rule="R15d"):
     rep.floor(rule, "optional index parameters of string range helpers", n, 2)
 
 
+def r15g(ctx, rep, rule="R15g"):
+    fresh_results(ctx, rep, rule, "String", "marwood::vm::vcell::VCell::string", "string", "string-set!", 1, 8)
+
+
+def fresh_results(ctx, rep, rule, variant, ctor, what, mutator, floor_c, floor_b):
+    facts, cg = ctx["facts"], ctx["cg"]
+    rep.rule(rule, "%s results are newly allocated: (i) a VCell::%s value is built only by the allocating constructor %s "
+             "(Rc::new) — no builtin wraps an existing reference-counted buffer, which would make two %s objects share "
+             "storage; (ii) a registered builtin that returns a %s(..) result on one path returns one on every Ok path "
+             "(it never hands back an operand). R7RS: these procedures return a newly allocated %s, so a later %s on the "
+             "result must not change an argument." % (what, variant, short_path(ctor), what, short_path(ctor), what, mutator))
+    n = 0
+    for p, f in sorted(facts.fns.items()):
+        if f.crate != "marwood" or f.impl_trait in DERIVE_TRAITS or "::tests::" in p:
+            continue
+        k = 0
+        for bb, j_, st in f.stmts():
+            rv = st["rv"]
+            if rv["k"] == "agg" and (rv.get("adt") or "").endswith("vcell::VCell") and rv.get("variant") == variant:
+                n += 1
+                k += 1
+                o = f.origin(rv["ops"][0])
+                fresh = o[0] == "call" and (callee(o[1]) or "").startswith(("std::rc::Rc", "alloc::rc::Rc")) and (callee(o[1]) or "").endswith("::new")
+                key = "%s|construct|%s#%d" % (rule, f.short, k)
+                (rep.ok if fresh else rep.fail)(rule, key, "%s builds VCell::%s around a fresh Rc" % (f.short, variant) if fresh else
+                                                "%s wraps an existing %s buffer in a new VCell::%s: the result shares storage with the "
+                                                "object the buffer came from, so mutating one changes the other" % (f.short, what, variant), [st["loc"]])
+    rep.floor(rule, "constructions of VCell::%s" % variant, n, floor_c)
+    m = 0
+    for b in sorted(cg.registry):
+        f = facts.fns.get(b)
+        if f is None:
+            continue
+        oks = []
+        for bb, j_, st in f.stmts():
+            rv = st["rv"]
+            if st["lhs"]["l"] == 0 and not st["lhs"]["p"] and rv["k"] == "agg" and rv.get("variant") == "Ok" and rv["ops"]:
+                o = f.origin(rv["ops"][0])
+                oks.append((st, o[0] == "call" and callee(o[1]) == ctor))
+        if not any(x for _, x in oks):
+            continue
+        m += 1
+        bad = [st for st, x in oks if not x]
+        key = "%s|fresh-result|%s" % (rule, f.short.rsplit("::", 1)[-1])
+        if bad:
+            rep.fail(rule, key, "%s returns a newly allocated %s on some paths but something else on another Ok path: on that "
+                     "path the result is (or aliases) an operand" % (f.short, what), [bad[0]["loc"]])
+        else:
+            rep.ok(rule, key, "%s: every Ok result is %s(..)" % (f.short, short_path(ctor)), [f.span])
+    rep.floor(rule, "builtins returning newly allocated %ss" % what, m, floor_b)
+
+
 def run(ctx, rep):
     units.r15a(ctx, rep)
     units.r15b(ctx, rep)
     r15c(ctx, rep)
     r15d(ctx, rep)
+    r15g(ctx, rep)
     from . import numeric
     numeric.r_fold_adjacent(ctx, rep, "R15f", [STRMOD, "marwood::vm::builtin::char::"], 2)
     from . import C14
